@@ -794,7 +794,7 @@ def run_case(case):
         return Outcome(False, f'exception on valid input: {traceback.format_exc()[-2500:]}\ncase={case}', labels=labels)
     if res.inconclusive:
         return Outcome(True, inconclusive=True, nontrivial=False, labels=labels)
-    known_cls = [fid for fid, pred in (('F11', _is_f11), ('F30a', _is_f30a)) if any(pred(op) for op in ops)]
+    known_cls = [fid for fid, pred in (('F30a', _is_f30a), ('F11', _is_f11)) if any(pred(op) for op in ops)]
     if not res.all_done:
         # an exception inside a protocol coroutine of the code under test: parties stay pending
         only_known = known_cls[0] if known_cls and all(_is_f11(op) or _is_f30a(op) for op in ops) else None
@@ -817,7 +817,7 @@ def run_case(case):
                 msgs.append(f'party {pid}: {msg}')
                 break
         if msgs:
-            cls = 'F11' if _is_f11(op) else 'F30a' if _is_f30a(op) else None
+            cls = 'F30a' if _is_f30a(op) else 'F11' if _is_f11(op) else None
             fails.append((cls, f'op {j} {op} on {ts}: {msgs[0]}'))
         elif op_nt:
             nt += 1
